@@ -115,9 +115,15 @@ func (c *Chain) newLFBTicket(b *block.Block) (ticket *LFBTicket) {
 }
 
 func (c *Chain) verifyLFBTicket(lfbt *LFBTicket) bool {
-	var sharder = node.GetNode(lfbt.SharderID)
+	// only a sharder of the current magic block can issue a LFB ticket; the
+	// global nodes registry also knows miners and nodes of previous magic blocks
+	var mb = c.GetCurrentMagicBlock()
+	if mb == nil || mb.Sharders == nil {
+		return false
+	}
+	var sharder = mb.Sharders.GetNode(lfbt.SharderID)
 	if sharder == nil {
-		return false // unknown or missing node
+		return false // unknown node or not a sharder of the magic block
 	}
 	var ok, err = sharder.Verify(lfbt.Sign, lfbt.Hash())
 	return err == nil && ok
